@@ -92,6 +92,7 @@ def generate(rng, tier, index):
     sc["stall"] = rng.choice([None, None, None, 1, 2]) if (sc["timeout"] and sc["psutil"] and mode == "honest") else None
     sc["shadow"] = rng.random() < 0.25  # a second Solver on the same backend, used alternately
     sc["reuse_backend"] = rng.random() < 0.5  # direct configuration: query the same backend object repeatedly
+    sc["graph_api"] = rng.random() < 0.5  # top-level native graph constraints go through cspuz.graph's public functions
     if direct:
         span = rng.choice([3 * len(decls) + 3, 3 * len(decls) + 3, 150, 1200])
         pool = rng.sample(range(0, max(span, len(decls) + 1)), len(decls))
@@ -366,8 +367,21 @@ def run(sc) -> RunResult:
                 try:
                     if k == "ensure":
                         b = refsem.Builder(vars_)
-                        exprs = [b.build(c) for c in op["cs"]]
-                        if direct:
+                        if not direct and sc.get("graph_api") and any(c[0] in ("gavc", "gdiv") for c in op["cs"]):
+                            # native graph constraints posted the way user code posts them: through the
+                            # public functions of cspuz.graph with use_graph_primitive=True
+                            for c in op["cs"]:
+                                if c[0] in ("gavc", "gdiv"):
+                                    _post_graph_via_api(cspuz, solver, b, c)
+                                    res.hit("native_graph_node_posted_through_graph_api")
+                                else:
+                                    solver.ensure(b.build(c))
+                            exprs = None
+                        else:
+                            exprs = [b.build(c) for c in op["cs"]]
+                        if exprs is None:
+                            pass
+                        elif direct:
                             built.extend(exprs)
                         else:
                             solver.ensure(*_nest(exprs, op.get("nest", 0)))
@@ -467,6 +481,25 @@ def run(sc) -> RunResult:
     finally:
         cspuz.config.backend_path, cspuz.config.solver_timeout = saved_cfg
     return res
+
+
+def _post_graph_via_api(cspuz, solver, builder, node):
+    from cspuz import graph as G
+
+    n, edges = node[1], node[2]
+    g = G.Graph(n)
+    for u, v in edges:
+        g.add_edge(u, v)
+    if node[0] == "gavc":
+        G.active_vertices_connected(solver, [builder.build(c) for c in node[3]], graph=g, use_graph_primitive=True)
+    else:
+        G.division_connected_variable_groups_with_borders(
+            solver,
+            group_size=[None if c is None else builder.build(c) for c in node[3]],
+            is_border=[builder.build(c) for c in node[4]],
+            graph=g,
+            use_graph_primitive=True,
+        )
 
 
 class _Shadow:
